@@ -378,13 +378,21 @@ def prm_soundness(scn, res, space, world, goal, log):
         L = lvs(spec)
         acc = [dec(spec, q) for q, a in log if a]
         so3 = any(k == "SO3" for k, _ in layout(spec))
+        # SO(3) distances carry an absolute noise near 0 that a compound weight multiplies
+        wscale = 1.0
+        if spec["kind"] == "Compound":
+            for part, w in zip(spec["parts"], spec["weights"]):
+                if part["kind"] == "SO3":
+                    wscale = max(wscale, w)
+        elif spec["kind"] == "SE3":
+            wscale = max(wscale, spec["weight"])
         for a, b in zip(states, states[1:]):
             dab = space.distance(a, b)
-            if not (dab <= r * (1 + (2e-4 if so3 else 1e-9)) + 1e-7):
+            if not (dab <= r * (1 + (2e-4 if so3 else 1e-9)) + 1e-7 * wscale):
                 return "C19/prm_step_exceeded", f"PRM segment of length {dab} exceeds the connection radius {r}"
             if not (L > 0) or dab <= L * (1 + 1e-3):
                 continue
-            tol = (1e-6 if so3 else 1e-9) * (1 + dab)
+            tol = (1e-6 * wscale if so3 else 1e-9) * (1 + dab)
             pos = []
             for q in acc:
                 dq = space.distance(a, q)
@@ -393,7 +401,7 @@ def prm_soundness(scn, res, space, world, goal, log):
             pos.sort()
             prev = 0.0
             for x in pos + [dab]:
-                if x - prev > L * (1 + 1e-3) + 1e-7:
+                if x - prev > L * (1 + 1e-3) + 1e-7 * wscale:
                     return "C19/prm_unchecked_gap", f"PRM segment has no accepted validity query for a stretch of {x - prev} (L={L})"
                 prev = max(prev, x)
     return None
